@@ -45,7 +45,7 @@ type Roles struct {
 	MsgWriterPath, MsgReaderPath *types.Var // exported Path fields
 
 	ImplWriter, ImplReaders, ImplOpts, ImplFlock *types.Var
-	WriterMu, ReadersMu, DeleteMu                 *types.Var
+	WriterMu, ReadersMu, DeleteMu                *types.Var
 
 	HWMessages, HWItems, HWIndex, HWReader, HWSegment *types.Var
 
